@@ -91,9 +91,23 @@ def v1_case(t, hd, OFXTree, params):
     t.outcome("body-" + bodyname + "-" + charset)
 
 
+def refused_files(hd):
+    """files whose body cannot be decoded with the declared charset (refused on the pinned tree): fed before the valid
+    ones - what a valid file decodes to must not depend on an earlier, broken one"""
+    import io as _io
+
+    for cs, raw in (("NONE", "é€".encode("cp1252")), ("NONE", b"\xff\xfe<OFX></OFX>"), ("1252", b"<OFX>\x81\x8d</OFX>")):
+        text = H.render_v1(H.v1_fields(102, charset=cs))
+        try:
+            hd.parse_header(_io.BytesIO(text.encode("ascii") + b"<OFX><A>" + raw + b"</A></OFX>"))
+        except Exception:
+            pass
+
+
 def v1_work(chunk):
     hd, OFXTree = lib()
     t = Tally()
+    refused_files(hd)
     for params in chunk:
         v1_case(t, hd, OFXTree, params)
     return t
@@ -243,7 +257,7 @@ def run(ctx):
     return {"tally": tally, "coverage": cov, "assumptions": [
         "single-quoted <?OFX ...?> attributes and an indented <?xml are not layouts the library tolerates and are not demanded",
         "the codec is chosen by CHARSET alone (ISO-8859-1, 1252, NONE=UTF-8), whatever ENCODING says",
-        "at most two leading blank lines"]}
+        "at most two leading blank lines", "every batch of files is preceded by three files whose body is not decodable in the declared charset (their refusal is not judged here)"]}
 
 
 def replay(ctx, case):
